@@ -97,6 +97,8 @@ class C14(Scenario):
             cols["v1"] = ("int", [d.randint(0, 6) for _ in range(n)])
         cols["b1"] = ("bool", [d.chance(0.6) for _ in range(n)])
         cols["t1"] = ("ts", [T0 + d.randint(0, 400) * 86400 + d.pick([0, 3600, 86399]) for _ in range(n)])
+        if d.chance(0.08):
+            cols["t1"] = ("ts", [cols["t1"][1][0]] * n)  # every row carries the same time stamp (one batch, one file)
         t = rng.fork("tree")
         names = ["f1", "f2", "i1", "i2", "b1", "f3", "i3", "v1"] + (["f4"] if t.chance(0.25) else [])
         use_time = t.chance(0.3)
